@@ -400,7 +400,24 @@ type evTrack struct {
 
 // reasmMonitor evaluates the clauses of C01, C02, C03, C10 and C19 that can be
 // decided from pushes and callbacks. It returns the first failed clause.
+// reasmSibling holds the first failed clause of a sibling property in the last reasmMonitor call.
+var reasmSibling string
+
 func reasmMonitor(c RCase, obs []opObs, prop string) (clause string) {
+	// The family shares one monitor. Only a failed clause of the property being checked is a
+	// monitor violation of that property; failed clauses of sibling properties are remembered in
+	// reasmSibling (diagnostics) and otherwise left to that property's own check.
+	own := ""
+	reasmSibling = ""
+	note := func(msg string) {
+		if strings.HasPrefix(msg, prop+":") {
+			if own == "" {
+				own = msg
+			}
+		} else if reasmSibling == "" {
+			reasmSibling = msg
+		}
+	}
 	pushedAt := map[int]int{}   // id -> op index
 	seqOf := map[int]uint32{}   // id -> seq
 	typOf := map[int]uint16{}   // id -> typ
@@ -409,6 +426,7 @@ func reasmMonitor(c RCase, obs []opObs, prop string) (clause string) {
 	open := map[uint32]*evTrack{} // currently buffered events by seq (monitor's reconstruction)
 	var order []uint32            // buffered seqs in arrival order of first record
 	closedOK := false
+	closeAt := -1
 	closed := false
 	gno := 0
 	var hasL bool
@@ -449,102 +467,107 @@ func reasmMonitor(c RCase, obs []opObs, prop string) (clause string) {
 			}
 		case "rawbad":
 			if !isErr {
-				return "C01: Push of an unparseable message returned nil"
+				note("C01: Push of an unparseable message returned nil")
 			}
 			if len(o.Groups) > 0 || len(o.Lost) > 0 {
-				return "C01: failed Push caused callbacks"
+				note("C01: failed Push caused callbacks")
 			}
 			continue
 		case "newnil":
 			if !isErr {
-				return "C19: NewReassembler accepted a nil Stream"
+				note("C19: NewReassembler accepted a nil Stream")
 			}
 			continue
 		case "maintain":
 			if closed != isErr {
-				return fmt.Sprintf("C19: Maintain returned error=%v on closed=%v reassembler", isErr, closed)
+				note(fmt.Sprintf("C19: Maintain returned error=%v on closed=%v reassembler", isErr, closed))
 			}
 			if closed && (len(o.Groups) > 0 || len(o.Lost) > 0) {
-				return "C19: Maintain on a closed reassembler delivered something"
+				note("C19: Maintain on a closed reassembler delivered something")
 			}
 		case "close":
 			if closed != isErr {
-				return fmt.Sprintf("C19: Close returned error=%v on closed=%v reassembler", isErr, closed)
+				note(fmt.Sprintf("C19: Close returned error=%v on closed=%v reassembler", isErr, closed))
 			}
 			if closed && (len(o.Groups) > 0 || len(o.Lost) > 0) {
-				return "C19: second Close delivered something"
+				note("C19: second Close delivered something")
 			}
 			if !closed {
 				closedOK = true
+				closeAt = i
 			}
 		case "nil", "sleep":
 			if o.Out != "-" {
-				return "C01: a nil push / no call produced callbacks"
+				note("C01: a nil push / no call produced callbacks")
 			}
 		}
 		// deliveries of this op
 		callLost := 0
 		for _, n := range o.Lost {
 			if n <= 0 {
-				return fmt.Sprintf("C03: EventsLost(%d) is not positive", n)
+				note(fmt.Sprintf("C03: EventsLost(%d) is not positive", n))
 			}
 			callLost += n
 		}
 		if len(o.Lost) > 1 {
-			return "C03: EventsLost reported more than once in one call"
+			note("C03: EventsLost reported more than once in one call")
 		}
 		if len(o.Lost) == 1 && !strings.HasSuffix(o.Out, "lost:"+strconv.Itoa(o.Lost[0])) {
-			return "C03: EventsLost not reported after the groups of its call"
+			note("C03: EventsLost not reported after the groups of its call")
 		}
 		specLost := uint64(0)
 		for _, g := range o.Groups {
 			gno++
 			if len(g) == 0 {
-				return "C01: empty group delivered"
+				note("C01: empty group delivered")
+				return own
 			}
 			gs := g[0].seq
 			e := open[gs]
 			for k, d := range g {
 				if _, ok := pushedAt[d.id]; !ok || d.id < 0 {
-					return fmt.Sprintf("C01: message id %d delivered but never pushed", d.id)
+					note(fmt.Sprintf("C01: message id %d delivered but never pushed", d.id))
+					return own
 				}
 				if typOf[d.id] == tEOE {
-					return fmt.Sprintf("C01: EOE message id %d delivered", d.id)
+					note(fmt.Sprintf("C01: EOE message id %d delivered", d.id))
 				}
 				if _, dup := deliveredAt[d.id]; dup {
-					return fmt.Sprintf("C01: message id %d delivered twice", d.id)
+					note(fmt.Sprintf("C01: message id %d delivered twice", d.id))
 				}
 				deliveredAt[d.id] = i
 				groupOf[d.id] = gno
 				if d.seq != gs || seqOf[d.id] != gs {
-					return fmt.Sprintf("C01: group mixes sequences %d and %d", gs, d.seq)
+					note(fmt.Sprintf("C01: group mixes sequences %d and %d", gs, d.seq))
 				}
 				if k > 0 && pushedAt[g[k-1].id] >= pushedAt[d.id] {
-					return "C01: group not in push order"
+					note("C01: group not in push order")
 				}
 			}
 			// no split: the group must be exactly the monitor's buffered event
 			if e == nil {
-				return fmt.Sprintf("C01: group for sequence %d delivered but no such event is buffered", gs)
+				note(fmt.Sprintf("C01: group for sequence %d delivered but no such event is buffered", gs))
+				return own
 			}
 			if len(e.ids) != len(g) {
-				return fmt.Sprintf("C01: event %d split or truncated: buffered ids %v delivered %d", gs, e.ids, len(g))
+				note(fmt.Sprintf("C01: event %d split or truncated: buffered ids %v delivered %d", gs, e.ids, len(g)))
+				return own
 			}
 			for k := range g {
 				if e.ids[k] != g[k].id {
-					return fmt.Sprintf("C01: event %d delivered ids differ from buffered ids %v", gs, e.ids)
+					note(fmt.Sprintf("C01: event %d delivered ids differ from buffered ids %v", gs, e.ids))
 				}
 			}
 			// C10 / C19: cause of eviction
 			if op.K != "close" && !c.Real && c.TimeoutNs >= int64(time.Hour) {
 				if !(e.complete || len(open) > c.Max) {
-					return fmt.Sprintf("C10: event %d evicted without cause (incomplete, %d buffered <= max %d, timeout 1h)", gs, len(open), c.Max)
+					note(fmt.Sprintf("C10: event %d evicted without cause (incomplete, %d buffered <= max %d, timeout 1h)", gs, len(open), c.Max))
 				}
 			}
 			if op.K != "close" && c.Real && !e.complete && len(open) <= c.Max {
 				// only the timeout can justify this eviction: it must have elapsed
 				if o.T1 < obs[e.firstOp].T0+c.TimeoutNs {
-					return fmt.Sprintf("C19: event %d delivered on account of time before its timeout elapsed", gs)
+					note(fmt.Sprintf("C19: event %d delivered on account of time before its timeout elapsed", gs))
 				}
 			}
 			// C02 bookkeeping
@@ -567,18 +590,21 @@ func reasmMonitor(c RCase, obs []opObs, prop string) (clause string) {
 			}
 		}
 		if c.InWindow && uint64(callLost) != specLost {
-			return fmt.Sprintf("C03: call %d reported lost=%d, skipped sequence numbers between its in-order deliveries=%d", i, callLost, specLost)
+			if op.K == "close" {
+				note(fmt.Sprintf("C19: Close reported lost=%d, the sequence numbers skipped between the events it flushed (after the last delivery before it)=%d", callLost, specLost))
+			}
+			note(fmt.Sprintf("C03: call %d reported lost=%d, skipped sequence numbers between its in-order deliveries=%d", i, callLost, specLost))
 		}
 		if op.K == "close" && !isErr {
 			closed = true
 			if len(open) != 0 {
-				return fmt.Sprintf("C19: Close left %d events buffered", len(open))
+				note(fmt.Sprintf("C19: Close left %d events buffered", len(open)))
 			}
 		}
 		// C10: bound and head not complete after a push
 		if op.K == "push" || op.K == "raw" {
 			if len(open) > c.Max && c.Max >= 0 {
-				return fmt.Sprintf("C10: %d events buffered after PushMessage, maxInFlight=%d", len(open), c.Max)
+				note(fmt.Sprintf("C10: %d events buffered after PushMessage, maxInFlight=%d", len(open), c.Max))
 			}
 			if c.InWindow && len(open) > 0 {
 				var head *evTrack
@@ -588,7 +614,7 @@ func reasmMonitor(c RCase, obs []opObs, prop string) (clause string) {
 					}
 				}
 				if head.complete {
-					return fmt.Sprintf("C10: oldest buffered event %d is complete but was not delivered", head.seq)
+					note(fmt.Sprintf("C10: oldest buffered event %d is complete but was not delivered", head.seq))
 				}
 			}
 		}
@@ -601,12 +627,12 @@ func reasmMonitor(c RCase, obs []opObs, prop string) (clause string) {
 				}
 			}
 			if o.T0 > obs[head.firstOp].T1+c.TimeoutNs {
-				return fmt.Sprintf("C19: event %d is the oldest buffered event and its timeout elapsed, but this %s did not deliver it", head.seq, op.K)
+				note(fmt.Sprintf("C19: event %d is the oldest buffered event and its timeout elapsed, but this %s did not deliver it", head.seq, op.K))
 			}
 		}
 		// C19: with an always-elapsed timeout nothing may stay buffered after push/maintain
 		if !c.Real && c.TimeoutNs < 0 && (op.K == "push" || op.K == "raw" || (op.K == "maintain" && !isErr)) && len(open) > 0 {
-			return fmt.Sprintf("C19: %d events still buffered although their timeout elapsed", len(open))
+			note(fmt.Sprintf("C19: %d events still buffered although their timeout elapsed", len(open)))
 		}
 	}
 	// C01 final: everything pushed (non-EOE) delivered exactly once, if the history closed
@@ -616,13 +642,15 @@ func reasmMonitor(c RCase, obs []opObs, prop string) (clause string) {
 				continue
 			}
 			// pushes after the successful close are flushed only by later calls; only require those before
-			_ = at
+			if _, ok := deliveredAt[id]; !ok && at < closeAt {
+				note(fmt.Sprintf("C01: message id %d was pushed before the successful Close but was never delivered", id))
+			}
 			if _, ok := deliveredAt[id]; !ok {
 				if len(open) == 0 {
-					return fmt.Sprintf("C01: message id %d never delivered", id)
+					note(fmt.Sprintf("C01: message id %d never delivered", id))
 				}
 				if e := open[seqOf[id]]; e == nil {
-					return fmt.Sprintf("C01: message id %d lost", id)
+					note(fmt.Sprintf("C01: message id %d lost", id))
 				}
 			}
 		}
@@ -638,11 +666,11 @@ func reasmMonitor(c RCase, obs []opObs, prop string) (clause string) {
 				if b.firstOp > a.op {
 					continue // late arrival
 				}
-				return fmt.Sprintf("C02: event %d delivered after event %d although its first record was pushed (op %d) before that delivery (op %d)", b.seq, a.seq, b.firstOp, a.op)
+				note(fmt.Sprintf("C02: event %d delivered after event %d although its first record was pushed (op %d) before that delivery (op %d)", b.seq, a.seq, b.firstOp, a.op))
 			}
 		}
 	}
-	return ""
+	return own
 }
 
 // reasmNontrivial: the history has an overflow eviction, a late arrival, a
@@ -737,6 +765,7 @@ func runReasmCase(ctx *Ctx, m *common.Model, c RCase, idx int) *common.Violation
 	if cl := reasmMonitor(c, obs, ctx.Prop); cl != "" {
 		return &common.Violation{Kind: "monitor", Clause: cl, Input: c, Impl: strings.Join(impl, " | "), Case: idx}
 	}
+	sibling := reasmSibling
 	// correspondence
 	if !c.InWindow && c.Max > 11 {
 		ctx.Res.Unmodelled++
@@ -761,10 +790,17 @@ func runReasmCase(ctx *Ctx, m *common.Model, c RCase, idx int) *common.Violation
 	for i := range rep {
 		if rep[i] != impl[i] {
 			return &common.Violation{Kind: "correspondence", Clause: fmt.Sprintf("Model.Reasm.step disagrees with the Reassembler at op %d (%s)", i, c.Ops[i].K),
-				Input: c, Impl: strings.Join(impl, " | "), Model: strings.Join(rep, " | "), Case: idx}
+				Input: c, Impl: strings.Join(impl, " | "), Model: strings.Join(rep, " | "), Case: idx, Note: siblingNote(sibling)}
 		}
 	}
 	return nil
+}
+
+func siblingNote(s string) string {
+	if s == "" {
+		return ""
+	}
+	return "on this history a clause of a sibling property fails: " + s
 }
 
 // shrinkReasm removes operations while the case still fails the same way.
